@@ -62,8 +62,16 @@ def coerce(eng, v, sort):
         if isinstance(sort, Opt):
             return coerce(eng, v, sort.inner)
         raise EngineLimit("cannot coerce %s to %s" % (v, sort))
+    if sort == MONEY and v.sort in (REAL, INT) and eng.path is not None and not eng.spec_mode:
+        money_oblige(eng, v, True)
+        return v
     if isinstance(sort, Opt):
-        if v.sort == NONE or isinstance(v.sort, Opt):
+        if v.sort == NONE:
+            return v
+        if isinstance(v.sort, Opt):
+            if sort.inner == MONEY and not eng.spec_mode and eng.path is not None:
+                isn, inner = v.t
+                money_oblige(eng, inner, _bm().not_(isn))
             return v
         return coerce(eng, v, sort.inner)
     if isinstance(sort, Tup) and isinstance(v.sort, Tup):
@@ -74,6 +82,19 @@ def coerce(eng, v, sort):
             raise EngineLimit("a possibly-None value flows into a location declared %s" % sort)
         return coerce(eng, inner, sort)
     return v
+
+
+def money_oblige(eng, v, guard):
+    """a value stored into a MONEY location must be on the penny grid"""
+    if is_conc_num(v.t) or guard is False:
+        return
+    y = z3.simplify(zreal(v.t) * 100)
+    if z3.is_app(y) and y.decl().kind() == z3.Z3_OP_TO_REAL:
+        return
+    g = y == z3.ToReal(z3.ToInt(y))
+    if guard is not True:
+        g = z3.Implies(zb(guard), g)
+    eng.oblige("%s/safety:money-on-penny-grid" % eng.cur_short, g, "safety")
 
 
 def absent_value(sort):
